@@ -433,3 +433,47 @@ func GenBoundary(r *rand.Rand) *Policy {
 	}
 	return GenValid(r, "names")
 }
+
+// GenLimit builds a valid policy whose program has about `target` instructions, for the
+// kernel's 4096-instruction limit.  The size is steered from one small calibration compile
+// (far below any limit) plus the fixed cost of a plain group (names + ja + ret), never from
+// a compile of the large policy itself, so that a compiler which wrongly refuses programs
+// near the limit cannot steer the generator away from them.
+func GenLimit(r *rand.Rand, target int) *Policy {
+	for tries := 0; tries < 20; tries++ {
+		p := GenValid(r, []string{"names", "conds"}[r.Intn(2)])
+		for gi := range p.Groups {
+			if len(p.Groups[gi].Names) > 20 {
+				p.Groups[gi].Names = p.Groups[gi].Names[:r.Intn(20)]
+			}
+		}
+		table := TableNames(p.Arch)
+		if len(table) < 210 {
+			continue
+		}
+		// calibration: base + one plain group of 200 names forces the long prologue form
+		cal := *p
+		cal.Groups = append(append([]Group{}, p.Groups...), Group{Action: anyAction(r), Names: distinctNames(r, table, 200)})
+		_, insts := cal.Compile()
+		if insts == nil || len(insts) < 300 || len(insts) > 2000 {
+			continue
+		}
+		p.Groups = cal.Groups
+		need := target - len(insts)
+		for need > 0 {
+			m := 200
+			if need < 202+3 { // last group takes the rest; a group costs m+2 and needs m ≥ 1
+				m = need - 2
+			}
+			if m < 1 {
+				break
+			}
+			p.Groups = append(p.Groups, Group{Action: anyAction(r), Names: distinctNames(r, table, m)})
+			need -= m + 2
+		}
+		if need == 0 {
+			return p
+		}
+	}
+	return GenValid(r, "names")
+}
